@@ -126,7 +126,7 @@ CHECKS = {
         "groups": [
             {"name": "c03", "run": "^TestC03_", "shards": {"quick": 16, "thorough": 16},
              "timeout": {"quick": 900, "thorough": 3000},
-             "checks": ["c03-acks", "c03-raw-peer"]},
+             "checks": ["c03-acks", "c03-raw-peer", "c03-at-connect"]},
         ],
     },
     "C12": {
